@@ -19,6 +19,9 @@ func (p *Prog) resolveType(pkgPath, expr string) (types.Type, error) {
 	if expr == "bool" {
 		return tBool, nil
 	}
+	if expr == "string" {
+		return types.Typ[types.String], nil
+	}
 	for _, pk := range p.ssa.AllPackages() {
 		if pk.Pkg.Path() != pkgPath {
 			continue
